@@ -15,6 +15,8 @@ use std::cell::RefCell;
 use batch::*;
 
 pub static THOROUGH: std::sync::atomic::AtomicBool = std::sync::atomic::AtomicBool::new(false);
+/// replay --verbose: the step log also shows every position, the vAMM reserves and the pre-state queries
+pub static VERBOSE: std::sync::atomic::AtomicBool = std::sync::atomic::AtomicBool::new(false);
 
 thread_local! {
     static LAST_PANIC: RefCell<String> = RefCell::new(String::new());
@@ -154,6 +156,7 @@ fn cmd_replay(args: &[String]) -> i32 {
         None => return 2,
     };
     let quiet = args.iter().any(|a| a == "--quiet");
+    VERBOSE.store(args.iter().any(|a| a == "--verbose"), std::sync::atomic::Ordering::Relaxed);
     let rf: ReplayFile = match std::fs::read_to_string(&path).ok().and_then(|s| serde_json::from_str(&s).ok()) {
         Some(r) => r,
         None => {
